@@ -380,12 +380,21 @@ impl ApiEngine {
 impl Engine for ApiEngine {
     fn step(&mut self, toks: &[&str], out: &mut Vec<String>) {
         match toks {
-            ["init", fm] => {
+            ["init", fm, rest @ ..] => {
                 let fm: u32 = match fm.parse() {
                     Ok(v) => v,
                     Err(_) => return out.push("bad-op".into()),
                 };
-                let (probe, conn) = ApiProbe::new(fm, FieldTable::new(), Ok(()), false);
+                let (io_result, io_panics) = match rest {
+                    [] => (Ok(()), false),
+                    ["ioend", "panic"] => (Ok(()), true),
+                    ["ioend", e @ ..] => match parse_err(e) {
+                        Some(e) => (Err(e), false),
+                        None => return out.push("bad-op".into()),
+                    },
+                    _ => return out.push("bad-op".into()),
+                };
+                let (probe, conn) = ApiProbe::new(fm, FieldTable::new(), io_result, io_panics);
                 self.probe = Some(probe);
                 self.conn = Some(conn);
                 out.push("ok".into());
